@@ -3,7 +3,8 @@
 //         "chunks": [n1, n2, ...] (sizes of the writes the request stream is split into, cycled),
 //         "complete_order": [i, ...] (order in which the hook handlers are allowed to finish; indices into the hook requests),
 //         "logging": bool (the plugin's real tracing->log-notification writer shares the output; ONE such case per process),
-//         "pause_reader": bool (the node stops reading the plugin's stdout while the requests are written, then resumes)}
+//         "pause_reader": bool (the node stops reading the plugin's stdout while the requests are written, then resumes),
+//         "pipeline": bool (getmanifest, init and the requests are written as one chunked stream, without waiting for the init reply)}
 //        request params: "log": n (the handler emits an n-byte log line first), "nogate": 1 (the handler finishes at once), "big": n (n extra bytes in the reply)
 // Output: {"handshake_ok": bool, "received": [[id, params]...] (hook invocations in arrival order), "notified": [...],
 //          "frames": [raw frames read back], "bad_frames": n, "trailing": hex}
@@ -63,6 +64,7 @@ pub fn run() {
         let order: Vec<usize> = case["complete_order"].as_array().map(|a| a.iter().map(|x| x.as_u64().unwrap() as usize).collect()).unwrap_or_default();
         let logging = case["logging"].as_bool().unwrap_or(false);
         let pause = case["pause_reader"].as_bool().unwrap_or(false);
+        let pipeline = case["pipeline"].as_bool().unwrap_or(false);
         if logging { std::env::set_var("CLN_PLUGIN_LOG", "info"); }
         let nhooks = reqs.iter().filter(|r| r["method"] == "htlc_accepted" && r.get("id").is_some()).count();
         let rt = tokio::runtime::Builder::new_current_thread().enable_all().build().unwrap();
@@ -93,9 +95,6 @@ pub fn run() {
             let init = json!({"jsonrpc": "2.0", "id": "init#2", "method": "init", "params": {"options": {}, "configuration": {
                 "lightning-dir": "/tmp/l", "rpc-file": "lightning-rpc", "startup": true, "network": "regtest",
                 "feature_set": {"init": "", "node": "", "channel": "", "invoice": ""}}}}).to_string() + "\n\n";
-            host_w.write_all(manifest.as_bytes()).await.unwrap();
-            host_w.write_all(init.as_bytes()).await.unwrap();
-            let handshake_ok = tokio::time::timeout(std::time::Duration::from_secs(5), plugin_task).await.map(|r| r.unwrap_or(false)).unwrap_or(false);
             // the request stream, written in adversarial chunks
             let mut stream = vec![];
             for r in reqs.iter() {
@@ -103,6 +102,22 @@ pub fn run() {
                 if let Some(id) = r.get("id") { m["id"] = id.clone(); }
                 stream.extend_from_slice(m.to_string().as_bytes());
                 stream.extend_from_slice(b"\n\n");
+            }
+            let handshake_ok;
+            if pipeline {
+                // the node does not wait for the init reply: getmanifest, init and the requests are ONE byte stream, cut into the
+                // same adversarial chunks (a read of the handshake may end inside, or after, the first requests)
+                let mut all = manifest.as_bytes().to_vec();
+                all.extend_from_slice(init.as_bytes());
+                all.extend_from_slice(&stream);
+                stream = all;
+                handshake_ok = true;      // judged by the two handshake replies in the output
+                let pt = plugin_task;
+                tokio::spawn(async move { let _ = pt.await; });
+            } else {
+                host_w.write_all(manifest.as_bytes()).await.unwrap();
+                host_w.write_all(init.as_bytes()).await.unwrap();
+                handshake_ok = tokio::time::timeout(std::time::Duration::from_secs(5), plugin_task).await.map(|r| r.unwrap_or(false)).unwrap_or(false);
             }
             // (when the node is not reading the plugin's output the plugin may stop reading its input: write from a task, resume reading after a while)
             if pause { paused.store(true, std::sync::atomic::Ordering::SeqCst); tokio::time::sleep(std::time::Duration::from_millis(3)).await; }
